@@ -43,3 +43,5 @@ mod zero;
 mod pool2;
 #[cfg(kani)]
 mod splice;
+#[cfg(kani)]
+mod stats2;
